@@ -126,6 +126,9 @@ fn typed_write(a: &mut BinArchive, w: W, addr: usize, bits: u32) -> Result<(), S
     .map_err(|e| e.to_string())
 }
 
+/// Display prefix of `ArchiveError::OutOfBoundsAddress`
+const OOB: &str = "Out of bounds address";
+
 struct GridCase {
     size: usize,
     e: End,
@@ -199,9 +202,12 @@ fn run_grid(gc: &GridCase, tier: Tier, t: &mut Tally, only: Option<(&str, usize)
                         t.nontrivial += 1;
                     }
                 }
-                Ok(Err(_)) => {
+                Ok(Err(m)) => {
                     if ok {
                         push(Some((format!("read-rejected:{:?}", w), format!("read_{:?}({}) on size {} returned Err but the range lies inside the data", w, addr, size), case_json(size, e, &opname, addr, json!("read")))), &mut out);
+                    } else if !m.starts_with(OOB) {
+                        // the statement names the error: an out-of-bounds error
+                        push(Some((format!("read-error-kind:{:?}", w), format!("read_{:?}({}) on size {} is out of range but the error is not an out-of-bounds error: {}", w, addr, size, m), case_json(size, e, &opname, addr, json!("read")))), &mut out);
                     }
                 }
             }
@@ -250,9 +256,11 @@ fn run_grid(gc: &GridCase, tier: Tier, t: &mut Tally, only: Option<(&str, usize)
                         // restore
                         let _ = a.write_bytes(0, &base.data);
                     }
-                    Ok(Err(_)) => {
+                    Ok(Err(m)) => {
                         if ok {
                             push(Some((format!("write-rejected:{:?}", w), format!("write_{:?}({}, ..) on size {} returned Err but the range lies inside the data", w, addr, size), cj())), &mut out);
+                        } else if !m.starts_with(OOB) {
+                            push(Some((format!("write-error-kind:{:?}", w), format!("write_{:?}({}, ..) on size {} is out of range but the error is not an out-of-bounds error: {}", w, addr, size, m), cj())), &mut out);
                         } else if arch::observe(&a) != before {
                             push(Some((format!("write-err-changed:{:?}", w), format!("write_{:?}({}, ..) returned Err and changed the archive", w, addr), cj())), &mut out);
                             a = fresh();
@@ -296,9 +304,11 @@ fn run_grid(gc: &GridCase, tier: Tier, t: &mut Tally, only: Option<(&str, usize)
                             t.nontrivial += 1;
                         }
                     }
-                    Ok(Err(_)) => {
+                    Ok(Err(m)) => {
                         if ok {
                             push(Some(("read_bytes-rejected".into(), format!("read_bytes({}, {}) on size {} returned Err but the range lies inside the data", addr, len, size), cj())), &mut out);
+                        } else if len > 0 && !m.starts_with(OOB) {
+                            push(Some(("read_bytes-error-kind".into(), format!("read_bytes({}, {}) on size {} is out of range but the error is not an out-of-bounds error: {}", addr, len, size, m), cj())), &mut out);
                         }
                     }
                 }
@@ -333,9 +343,11 @@ fn run_grid(gc: &GridCase, tier: Tier, t: &mut Tally, only: Option<(&str, usize)
                             t.nontrivial += 1;
                         }
                     }
-                    Ok(Err(_)) => {
+                    Ok(Err(m)) => {
                         if ok {
                             push(Some(("write_bytes-rejected".into(), format!("write_bytes({}, {} bytes) on size {} returned Err but the range lies inside the data", addr, len, size), cj())), &mut out);
+                        } else if len > 0 && !m.starts_with(OOB) {
+                            push(Some(("write_bytes-error-kind".into(), format!("write_bytes({}, {} bytes) on size {} is out of range but the error is not an out-of-bounds error: {}", addr, len, size, m), cj())), &mut out);
                         } else if arch::observe(&a) != before {
                             push(Some(("write_bytes-err-changed".into(), format!("write_bytes({}, {} bytes) returned Err and changed the archive", addr, len), cj())), &mut out);
                         }
